@@ -145,6 +145,11 @@ def check(pid: str, tier: str, seed: int):
                     calculate_viability_and_necessity(ag)
                 if ag.nodes and rng.random() < 0.6:
                     ag.remove_node(rng.choice(ag.nodes))            # ids no longer equal list positions
+                # type and status need not go together: a defense step without a status (as add_node accepts it), a
+                # status on a step that is not a defense — what is sent follows the status, not the type
+                for nd in list(ag.nodes):
+                    if rng.random() < 0.15:
+                        nd.defense_status = rng.choice([0.0, 1.0, 0.5]) if nd.defense_status is None else None
                 neo.ingest_attack_graph(ag, 'uri', 'u', 'p', 'db')
                 g2 = FakeGraph.last
                 n2, r2 = sent(g2)
